@@ -1544,6 +1544,9 @@ class LangServer:
             os.path.isfile(os.path.join(self.root_path, f)) for f in default_conf_files
         ]
         if not any(present_conf_files):
+            # Only complain when a configuration file was explicitly requested
+            if self.config != ".fortlsrc":
+                self.post_message(f"Configuration file '{self.config}' not found")
             return None
 
         # Load the first config file found
@@ -1556,6 +1559,9 @@ class LangServer:
         try:
             with open(config_path) as jsonfile:
                 config_dict = json5.load(jsonfile)
+
+                # Reject ill-typed content before any option is changed
+                self._check_config_file(config_dict)
 
                 # Include and Exclude directories
                 self._load_config_file_dirs(config_dict)
@@ -1572,10 +1578,32 @@ class LangServer:
         except FileNotFoundError:
             self.post_message(f"Configuration file '{self.config}' not found")
 
-        # Erroneous json file syntax
-        except ValueError as e:
+        # Erroneous json file syntax or content, unreadable file
+        except (ValueError, OSError) as e:
             msg = f'Error: "{e}" while reading "{self.config}" Configuration file'
             self.post_message(msg)
+
+    def _check_config_file(self, config_dict) -> None:
+        """Raise ValueError unless the configuration is a dictionary whose
+        values have the type of the option they set"""
+        if not isinstance(config_dict, dict):
+            raise ValueError("top-level value is not a dictionary")
+        for key, val in config_dict.items():
+            ref = getattr(self, key, None)
+            if key == "pp_defs":
+                valid = isinstance(val, (dict, list))
+            elif isinstance(ref, bool):
+                valid = isinstance(val, bool)
+            elif isinstance(ref, int):
+                valid = isinstance(val, int) and not isinstance(val, bool)
+            elif isinstance(ref, str):
+                valid = isinstance(val, str)
+            elif isinstance(ref, (set, list)):
+                valid = isinstance(val, list) and all(isinstance(i, str) for i in val)
+            else:
+                valid = True
+            if not valid:
+                raise ValueError(f"invalid value for option '{key}'")
 
     def _load_config_file_dirs(self, config_dict: dict) -> None:
         self.excl_paths = set(config_dict.get("excl_paths", self.excl_paths))
